@@ -119,6 +119,108 @@ def build_h3():
     return b
 
 
+def build_h4(N, late_validator=False):
+    """real run_finality_loop || real run_commit_loop (commit itself is a ghost that always succeeds) from the state in
+    which every transaction is executed and validated; with late_validator the last transaction is still Validating and a
+    worker finishes it with the real validate() (which notifies the finality coordinator).  Parks have no timeout."""
+    import sched_common as sc
+    import c04
+
+    def b(tr):
+        H = hz.Harness(tr, "c17_h4")
+        S = H.shared("S", "Scheduler<DB>")
+        sc.freeze_sched(H, S, N)
+        CM = H.shared("committer", "OrderedCommitter<DB>")
+        H.cvar("plan", "unsigned char", dims=[N]); H.cvar("commit_calls", "usize"); H.cvar("fin_seen_max", "usize")
+        H.c(f"commit_calls = 0; fin_seen_max = {N}; g_parks = 0;")
+        for t in range(6):
+            H.c(f"g_park_token[{t}] = 0;")
+        sc.init_sched(H, S, N)
+        sc.init_ctx(H, S, N)
+        sc.init_tx_tables(H, S, N, L=1)
+        H.c(f"{H.lv(S, 'results.data.len')} = 0; {H.lv(S, 'results.locked')} = 0;")
+        stn = H.nav(S, "tx_states.e.data.status")
+        trn = H.nav(S, "tx_results.e.data")
+        er = H.nav(trn, "Some.0.execute_result")
+        last = N - 1
+        for i in range(N):
+            st = "Validating" if (late_validator and i == last) else "Unconfirmed"
+            H.c(f"plan[{i}] = 0; {H.lv(S, 'tx_states.e.data.status.d', [i])} = {H.variant(stn, '', st)}; {H.lv(S, 'tx_states.e.data.incarnation', [i])} = 1;")
+            H.c(f"{H.lv(trn, 'd', [i])} = 1; {H.lv(er, 'd', [i])} = 0; {H.lv(er, 'Ok.0.id', [i])} = {10 + i};")
+            H.c(f"{H.lv(trn, 'Some.0.read_set.present.e', [i, 0])} = 0; {H.lv(trn, 'Some.0.write_set.present.e', [i, 0])} = 0;")
+            if not (late_validator and i == last):
+                H.c(f"{H.lv(S, 'scheduler_ctx.unconfirmed_timestamps.e', [i])} = {i + 1};")
+            H.c(f"{H.lv(S, 'scheduler_ctx.execution_frontier.executed.e', [i])} = 1;")
+        H.c(f"{H.lv(S, 'scheduler_ctx.logical_clock')} = {N + 2}; {H.lv(S, 'scheduler_ctx.validation')} = {N}; {H.lv(S, 'scheduler_ctx.execution_frontier.frontier')} = {N}; {H.lv(S, 'tx_dependency.index')} = {N};")
+        f = H.thread("finality"); H.enter(f)
+        H.call("Scheduler::run_finality_loop", [H.ref(S)])
+        cthr = H.thread("commit"); H.enter(cthr)
+        clr = H.shared("clr", "CommitLoopResult<DBError>")
+        H.call("Scheduler::run_commit_loop", [H.ref(S), H.ref(CM)], clr)
+        if late_validator:
+            w = H.thread("worker"); H.enter(w)
+            t2 = H.local("t2", "Option<Task>")
+            H.call("Scheduler::validate", [H.ref(S), hz.VUnit(), VAgg([H.val(str(last)), H.val("1")])], t2)
+        H.post()
+        H.assert_(f"{H.lv(S, 'scheduler_ctx.committed')} == {N} && {H.lv(S, 'scheduler_ctx.finality')} == {N}", "both coordinators finished the whole block without relying on a timeout")
+        H.assert_(f"commit_calls == {N} && !{H.lv(S, 'abort')}", "every transaction committed once, no abort")
+        H.cover("g_parks >= 1", "a coordinator really parked")
+        H.cover("g_parks >= 2", "coordinators parked twice")
+        return H
+    return b
+
+
+def lfc_stub(N):
+    def stub(tr, c):
+        """Scheduler::lock_finality_candidate -> ghost for the notification skeleton: every transaction below N is ready;
+        the returned guard is bound to a thread-private dummy TxState (no shared-memory traffic)"""
+        import itermodels
+        from rtypes import parse_type
+        from models import REG
+        d = c.dest()
+        fidx = tr.as_scalar(c.args[1]).expr
+        lower = tr.as_scalar(c.args[2]).expr
+        tr.tmpn += 1
+        dm = tr.alloc(parse_type("Mutex<TxState>"), f"dummy_tx{tr.tmpn}", [], tr.cur.storage)
+        tr.emit(f"{tr.lv(Loc(dm.f('locked'), []))} = 0; {tr.lv(Loc(dm.f('data').f('status').discr, []))} = 4; "
+                f"{tr.lv(Loc(dm.f('data').f('incarnation'), []))} = 1; {tr.lv(Loc(dm.f('data').f('dependency').discr, []))} = 0;")
+        n = d.node
+        si, ni = n.vindex("Some"), n.vindex("None")
+        tup = n.variants[si][1].fields[0]
+        tr.emit(f"if ({fidx} < {N}) {{ {tr.lv(Loc(n.discr, d.idxs))} = {si}; {tr.lv(Loc(tup.fields[1], d.idxs))} = {lower};")
+        REG.lookup("Mutex::lock")(tr, itermodels.ICtx(tr, c.inst, "Mutex::lock", [VRef(dm, [])], Loc(tup.fields[0], d.idxs)))
+        tr.emit(f"}} else {{ {tr.lv(Loc(n.discr, d.idxs))} = {ni}; }}")
+    return stub
+
+
+def h4_cfg(N, late, skeleton=True):
+    import sched_common as sc
+    import c04
+    stubs = dict(sc.bene_true_stubs())
+    stubs["OrderedCommitter::commit"] = c04.commit_stub(N)
+    if skeleton and not late:
+        stubs["Scheduler::lock_finality_candidate"] = lfc_stub(N)
+        stubs["TxDependency::commit"] = lambda tr, c: None
+    c = sc.mv_cfg(N, L=1, stubs=stubs)
+    # tid 1 = finality, 2 = commit, 3 = worker.  A parked coordinator can only be woken by the other roles.
+    c["park_hook"] = park_hook(late)
+    c["loops"] = {"Scheduler::run_finality_loop": {"*": (N + 3, "assume")}, "Scheduler::run_commit_loop": {"*": (N + 3, "assume")},
+                  "Scheduler::validate": {"*": (3, "assert")}, "WaitSlot::wait_while": {"*": (3, "assume")}}
+    return c
+
+
+def park_hook(late):
+    def hook(tr, c):
+        tid = tr.cur.tid
+        others = {1: "g_done[2]" + (" && g_done[3]" if late else ""), 2: "g_done[1]" + (" && g_done[3]" if late else ""), 3: "0"}[tid]
+        tr.emit("__CPROVER_atomic_begin();")
+        tr.emit(f"__CPROVER_assume(g_park_token[{tid}] || ({others}));")
+        tr.emit(f'__CPROVER_assert(g_park_token[{tid}], "LOST-WAKEUP: coordinator parked with no token and every possible notifier finished (only the stall timeout would wake it)");')
+        tr.emit(f"g_park_token[{tid}] = 0; g_parks++;")
+        tr.emit("__CPROVER_atomic_end();")
+    return hook
+
+
 def specs(tier):
     done12 = "g_done[2] && g_done[3]"
     out = [
@@ -132,5 +234,15 @@ def specs(tier):
              unwind=5, timeout=600,
              desc="real commit-loop wait predicate on a real Scheduler || real cancel() || publish_finality+notify",
              bounds={"threads": 3, "wait_rounds": 3}),
+        Spec("h4_finality_commit_n2", build_h4(2), cfg=h4_cfg(2, False), unwind=6, timeout=900,
+             desc="real run_finality_loop || real run_commit_loop (ghost commit) over 2 validated transactions: every publication the "
+                  "commit coordinator needs is followed by a notification; parks have no timeout",
+             bounds={"n": 2, "threads": 2, "memory_model": "SC"}),
     ]
+    if tier == "thorough":
+        out.append(Spec("h4_finality_commit_n3", build_h4(3), cfg=h4_cfg(3, False), unwind=7, timeout=7200,
+                        desc="as h4 with 3 transactions", bounds={"n": 3, "threads": 2}))
+        out.append(Spec("h5_validate_finality_commit_n2", build_h4(2, True), cfg=h4_cfg(2, True), unwind=6, timeout=7200,
+                        desc="worker finishing the last validation (real validate, notifies finality) || finality loop || commit loop",
+                        bounds={"n": 2, "threads": 3}))
     return out
